@@ -29,6 +29,7 @@ use crate::codec::family::Family;
 use crate::common::NumStdDev;
 use crate::error::Error;
 use crate::hll::estimator::HipEstimator;
+use crate::hll::estimator::check_cached_values;
 use crate::hll::get_slot;
 use crate::hll::get_value;
 use crate::hll::serialization::COMPACT_FLAG_MASK;
@@ -228,12 +229,21 @@ impl Array6 {
         estimator.set_kxq1(kxq1);
         estimator.set_out_of_order(ooo);
 
-        Ok(Self {
+        let array = Self {
             lg_config_k,
             bytes: data.into_boxed_slice(),
             num_zeros,
             estimator,
-        })
+        };
+        check_cached_values(
+            (0..k as u32).map(|slot| array.get(slot)),
+            0,
+            num_zeros,
+            hip_accum,
+            kxq0,
+            kxq1,
+        )?;
+        Ok(array)
     }
 
     /// Serialize Array6 to bytes
